@@ -64,6 +64,9 @@ func (t *Segment) Value(buffer []byte) []byte {
 		result = append(result, buffer[t.Start:t.Stop]...)
 	}
 	if t.ForceNewline && len(result) > 0 && result[len(result)-1] != '\n' {
+		// result may alias buffer: cap it so that append copies instead of
+		// writing into the caller's memory behind the segment
+		result = result[:len(result):len(result)]
 		result = append(result, '\n')
 	}
 	return result
